@@ -6,6 +6,7 @@ from pathlib import Path
 
 from pta.check import Spec
 from pta.model import AnalysisError, Model
+from pta.pat import find, has
 from pta.rules.common import short
 
 R = "pytato.raising"
@@ -157,13 +158,22 @@ def _len_guard(asg, src):
     return None
 
 
+def _inner_var(fd):
+    """the local holding the cast-stripped scalar expression of the lambda"""
+    ep = fd.args.args[0].arg
+    e = find(fd, f"$v = TypeCastDropper()({ep}.expr)")
+    if len(e) != 1:
+        raise AnalysisError("anchor vanished: cast-stripped expression in the raiser")
+    return e[0]["$v"]
+
+
 def r_order(c):
     """operand tuples list the scalar node's fields in the node's own order"""
     m = c.model
     fd = m.func(RAISER)
     pf = pymbolic_fields()
     n = 0
-    var = "inner_expr"
+    var = _inner_var(fd)
     for test, body in _branches(fd):
         types = []
         for t in ast.walk(test):
@@ -197,9 +207,13 @@ def r_order(c):
     if n < 4:
         raise AnalysisError(f"only {n} ordered operand extractions found (floor 4)")
     # subtraction pattern a + (-1)*b  ->  (a, b)
-    src = ast.unparse(fd)
-    ok = ("inner_expr.children[1].children[0] == -1" in src
-          and "children = (inner_expr.children[0], inner_expr.children[1].children[1])" in src)
+    ok = False
+    for test, body in _branches(fd):
+        if has(test, f"{var}.children[1].children[0] == -1") \
+                and has(test, f"isinstance({var}.children[1], p.Product)") \
+                and has(test, f"isinstance({var}, p.Sum)"):
+            ok = has(ast.Module(body=list(body), type_ignores=[]),
+                     f"$ch = ({var}.children[0], {var}.children[1].children[1])")
     c.check(ok, "R19-ORDER", "index_lambda_to_high_level_op", "SUB:(minuend, subtrahend)",
             m.loc(m.module_of(fd), fd),
             "the a + (-1)*b pattern no longer yields (a, b) under the test that the "
@@ -215,7 +229,7 @@ def r_cascade(c):
     accepted = set()
     for t in ast.walk(casc):
         if isinstance(t, ast.Call) and ast.unparse(t.func) == "isinstance" \
-                and ast.unparse(t.args[0]) == "expr":
+                and isinstance(t.args[0], ast.Name):
             accepted |= set(_prim_names(t.args[1]))
             if "SCALAR_CLASSES" in ast.unparse(t.args[1]):
                 accepted.add("<scalar>")
@@ -286,7 +300,7 @@ def r_tables(c):
     cvals = [v.attr for v in comp.values if isinstance(v, ast.Attribute)]
     # every type named in a branch that indexes the simple map is a key
     for test, body in _branches(fd):
-        if any("_SIMPLE_PYMBOLIC_BINARY_OP_MAP[type(inner_expr)]" in ast.unparse(s)
+        if any(has(s, f"_SIMPLE_PYMBOLIC_BINARY_OP_MAP[type({_inner_var(fd)})]")
                for s in body):
             for ty in _prim_names(test):
                 c.check(ty in skeys, "R19-TABLES", "_SIMPLE_PYMBOLIC_BINARY_OP_MAP",
@@ -436,22 +450,23 @@ def r_patterns(c):
         h = m.func(R + "." + helper)
         hs = ast.unparse(h)
         hp = h.args.args[0].arg
-        c.check("TypeCastDropper" not in hs and "inner_expr" not in [a.arg for a in h.args.args]
-                and f"{hp}.expr" in hs, "R19-PATTERN", helper, "matches-the-uncast-expression",
+        c.check("TypeCastDropper" not in hs and f"{hp}.expr" in hs, "R19-PATTERN", helper, "matches-the-uncast-expression",
                 m.loc(m.module_of(h), h),
                 f"{helper} strips type casts before matching: a cast (astype) would be "
                 "classified as the operation underneath it and the cast lost")
     # (2b) sibling agreement: like _as_array_or_scalar, the broadcast recogniser
     #      accepts an operand only through its exact broadcast subscript
     b = m.func(R + "._is_idx_lambda_broadcast_op")
-    okb = any(isinstance(x, ast.Compare) and "index_tuple" in ast.unparse(x)
-              and "get_indexing_expression(from_shape, to_shape)" in ast.unparse(x)
-              for x in ast.walk(b))
+    bp = b.args.args[0].arg
+    fs_ = find(b, f"$fs = {bp}.bindings[$n].shape")
+    ts_ = find(b, f"$ts = {bp}.shape")
+    okb = len(fs_) == 1 and len(ts_) == 1 and has(
+        b, f"{bp}.expr.index_tuple == get_indexing_expression({fs_[0]['$fs']}, {ts_[0]['$ts']})")
     c.check(okb, "R19-PATTERN", "_is_idx_lambda_broadcast_op",
             "subscript-is-the-exact-broadcast-subscript", m.loc(m.module_of(b), b),
             "the broadcast recogniser looks at shapes only: a permuted or offset "
             "subscript (a[_1, _0]) is classified as a broadcast of a")
-    c.check("to_shape[-len(from_shape):]" not in ast.unparse(b), "R19-PATTERN",
+    c.check(not has(b, "$ts[-len($fs):]"), "R19-PATTERN",
             "_is_idx_lambda_broadcast_op", "zero-dimensional-operand-handled",
             m.loc(m.module_of(b), b),
             "to_shape[-len(from_shape):] is the whole shape for a 0-d operand: the strict "
@@ -461,18 +476,22 @@ def r_patterns(c):
     ok = False
     for iff in ast.walk(a):
         if isinstance(iff, ast.If) and any(isinstance(s_, ast.Raise) for s_ in iff.body):
-            t = ast.unparse(iff.test)
-            if "are_shapes_equal(out_shape, get_shape_after_broadcasting(bindings.values()))" in t \
-                    and t.startswith("not "):
+            bn, osn = a.args.args[1].arg, a.args.args[2].arg
+            if ast.unparse(iff.test) in (
+                    f"not are_shapes_equal({osn}, get_shape_after_broadcasting({bn}.values()))",
+                    f"not are_shapes_equal(get_shape_after_broadcasting({bn}.values()), {osn})"):
                 ok = True
     c.check(ok, "R19-PATTERN", "_as_array_or_scalar", "shape-equals-broadcast-shape-incl-rank",
             m.loc(m.module_of(a), a),
             "the guard no longer requires the lambda's shape to equal (rank included) the "
             "broadcast shape of its operands")
     # (4) an operand is an exact broadcast subscript, a scalar binding, a constant or NaN
-    asrc = ast.unparse(a)
-    c.check("binding_to_subscript[expr.aggregate.name] == expr" in asrc
-            and "get_indexing_expression(bnd.shape, out_shape)" in asrc, "R19-PATTERN",
+    bn, osn = a.args.args[1].arg, a.args.args[2].arg
+    tbl = find(a, f"$t = {{$k: p.Subscript(p.Variable($k), get_indexing_expression($b.shape, {osn}))"
+                  f" for $k, $b in {bn}.items()}}")
+    c.check(len(tbl) == 1 and (has(a, f"{tbl[0]['$t']}[$e.aggregate.name] == $e")
+                               or has(a, f"$e == {tbl[0]['$t']}[$e.aggregate.name]")),
+            "R19-PATTERN",
             "_as_array_or_scalar", "operand-only-through-exact-broadcast-subscript",
             m.loc(m.module_of(a), a),
             "an array operand is recognised by something other than equality with its "
